@@ -64,3 +64,33 @@ Example returned_iso_executed :
   | _, _ => False
   end.
 Proof. vm_compute. repeat split; reflexivity. Qed.
+
+(** ---------------------------------------------------------------- whole resolve() calls (ReturnedIso) *)
+From CGV Require Import Resolve.Pipeline Resolve.PipelineFull Compose.ReturnedIso.
+
+Definition full_run (C : cut) : option full_out :=
+  match run_aa C with
+  | Some (m2, _, _, _) => match resolve_step_full true true (fragdict_of exC) (base_of C) (Some m2) with Ok fo => Some fo | Err _ => None end
+  | None => None
+  end.
+
+(** both all-atom resolve() calls return with the identity transcript (the recorded graph IS the graph after squash_atoms);
+    the explicit map between the RETURNED graphs (E/Z step, annotate_fragments, atom names included) preserves adjacency,
+    orders and the elements *)
+Example returned_graphs_iso_executed :
+  match full_run exC, full_run exCp with
+  | Some fo1, Some fo2 =>
+      graph_eqb (fo_m3 fo1) (fo_m2 fo1) = true /\ graph_eqb (fo_m3 fo2) (fo_m2 fo2) = true /\
+      match sort_mapping (fo_m4 fo1), sort_mapping (fo_m4 fo2) with
+      | Ok ms1, Ok ms2 =>
+          let F := fun k => map_get ms2 (iso exC exCp (fo_m3 fo1) (fo_m4 fo1) (fo_m3 fo2) (fo_m4 fo2) (inv_key (fo_m4 fo1) ms1 k)) in
+          length (fo_mol fo1) = 13%nat /\
+          forallb (fun k => forallb (fun l => Bool.eqb (has_edge (fo_mol fo2) (F k) (F l)) (has_edge (fo_mol fo1) k l)
+                     && oeqb (edge_get (fo_mol fo2) (F k) (F l) (S "order")) (edge_get (fo_mol fo1) k l (S "order"))) (node_keys (fo_mol fo1))) (node_keys (fo_mol fo1)) = true /\
+          forallb (fun k => oeqb (node_get (fo_mol fo2) (F k) (S "element")) (node_get (fo_mol fo1) k (S "element"))) (node_keys (fo_mol fo1)) = true /\
+          MapDefs.same_set (map F (node_keys (fo_mol fo1))) (node_keys (fo_mol fo2)) = true
+      | _, _ => False
+      end
+  | _, _ => False
+  end.
+Proof. vm_compute. repeat split; reflexivity. Qed.
